@@ -226,7 +226,7 @@ fn poison(t: &mut Tape, prog: &mut Prog) -> String {
     // collect mutation sites lazily: pick a category, then a site
     let nm = prog.mods.len();
     let mi = t.below(nm as u64) as usize;
-    let cat = t.below(12);
+    let cat = t.below(13);
     let b = *t.pick(BOUNDARY);
     let bu = *t.pick(BOUNDARY_USIZE);
     let id = t.pick(WEIRD_IDENTS).to_string();
@@ -391,6 +391,23 @@ fn poison(t: &mut Tape, prog: &mut Prog) -> String {
             prog.mods[mi].uses.push(p);
             prog.mods[mi].uses.push(vec![]);
             "cyclic-use".into()
+        }
+        12 => {
+            // backend text that is odd Rust: unbalanced, unterminated, items syn keeps verbatim, not Rust at all
+            let texts = [
+                "}/*", "pub const X: u32;", "fn f();", "impl Q { fn g(); }", "pub static S: u8;", "type A;", "/*", "*/", "'", "\"", "r#\"", "{", ")",
+                "macro_rules! m { () => {} }", "#![no_std]", "pub trait Tr { const C: u32; fn f(); }", "mod inner;", "use super::*;", "\\", "\u{0}", "pub struct;",
+                "extern \"C\" { fn h(); static Z: u8; type Opaque; }", "pub fn ok() {}", "enum E {}", "union U { a: u8 }", "const _: () = ();",
+            ];
+            let text = t.pick(&texts).to_string();
+            let (p, e) = if t.chance(1, 2) { (Some(text), None) } else { (None, Some(text)) };
+            m.backends.push(BackendBlk {
+                name: "rust".into(),
+                form: 0,
+                prologue: p,
+                epilogue: e,
+            });
+            "backend-text".into()
         }
         10 => {
             m.ext_vals.push(ExtVal {
